@@ -160,10 +160,14 @@ fn c14_complete_par_space(maxn: usize, maxpar: usize) -> Space {
     .procs()
 }
 
+static BICLIQUE_SIDES: [usize; 10] = [1, 2, 3, 31, 32, 33, 63, 64, 65, 100];
+
 fn c14_biclique_space(maxm: usize) -> Space {
     let k = maxm + 1;
-    Space::new("c14.biclique", vec![maxm as u64], (k * k) as u64, format!("biclique(m, n) for every (m, n) in 0..={maxm} × 0..={maxm} (zero = inadmissible) in four representations; claw, utility, trivial"), move |idx, ctx| {
-        let (m, n) = ((idx as usize) % k, (idx as usize) / k);
+    let nb = BICLIQUE_SIDES.len();
+    Space::new("c14.biclique", vec![maxm as u64, nb as u64], (k * k + nb * nb) as u64, format!("biclique(m, n) for every (m, n) in 0..={maxm} × 0..={maxm} (zero = inadmissible) and every (m, n) in {BICLIQUE_SIDES:?}² (orders up to 200: sides on both sides of the 32/64-bit boundaries) in four representations; claw, utility, trivial"), move |idx, ctx| {
+        let idx_u = idx as usize;
+        let (m, n) = if idx_u < k * k { (idx_u % k, idx_u / k) } else { (BICLIQUE_SIDES[(idx_u - k * k) % nb], BICLIQUE_SIDES[(idx_u - k * k) / nb]) };
         let admissible = m > 0 && n > 0;
         fn one<R: GenRep>(m: usize, n: usize, admissible: bool, ctx: &mut Ctx) {
             ctx.exec();
@@ -225,7 +229,7 @@ pub fn c14(tier: &str, seed: u64) -> Check {
         "C14",
         tier,
         seed,
-        "exhaustive over the parameter ranges: every order 0..=130 (0..=300 thorough) × seven generators × four representations against closed-form arc sets (order 0 and wheel < 4 must panic) and against each other through the From conversions; AdjacencyList::complete(n) for every n ≤ 70 (140) × every worker count 1..=33 (66) and the Err answer; biclique(m, n) for every (m, n) ≤ 16 (40) incl. zeros; trivial/claw/utility. Non-trivial: order² not a multiple of 64 (bit matrix tail) / ragged last chunk / m != n.",
+        "exhaustive over the parameter ranges: every order 0..=130 (0..=300 thorough) × seven generators × four representations against closed-form arc sets (order 0 and wheel < 4 must panic) and against each other through the From conversions; AdjacencyList::complete(n) for every n ≤ 70 (140) × every worker count 1..=33 (66) and the Err answer; biclique(m, n) for every (m, n) ≤ 16 (40) incl. zeros and for sides {1,2,3,31,32,33,63,64,65,100}²; trivial/claw/utility. Non-trivial: order² not a multiple of 64 (bit matrix tail) / ragged last chunk / m != n.",
         &["orders above 130 (300 thorough) are not explored", "worker count through the cfg(graaf_verif) seam"],
         json!({"orders": if thorough { json!("0..=300") } else { json!("0..=130") }}),
     );
@@ -502,9 +506,9 @@ pub fn c15(tier: &str, seed: u64) -> Check {
         spaces.push(c15_space::<AM>(20, 70, 16));
         spaces.push(c15_f64_space(1 << 22, 8));
     } else {
-        spaces.push(c15_space::<AL>(8, 70, 1));
-        spaces.push(c15_space::<AX>(8, 70, 1));
-        spaces.push(c15_space::<EL>(8, 70, 1));
+        spaces.push(c15_space::<AL>(12, 70, 1));
+        spaces.push(c15_space::<AX>(12, 70, 1));
+        spaces.push(c15_space::<EL>(12, 70, 1));
         spaces.push(c15_space::<AM>(8, 24, 8));
         spaces.push(c15_space::<AM>(18, 3, 17));
         spaces.push(c15_f64_space(1 << 16, 4));
@@ -516,9 +520,9 @@ pub fn c15(tier: &str, seed: u64) -> Check {
         "C15",
         tier,
         seed,
-        "exhaustive over the enumerated parameter grid: every order 1..=8 (20) × 70 (1024) seeds incl. 0..63, 2^32, u64::MAX-1, u64::MAX × p ∈ {0, 2^-40, 0.25, 0.5, 0.5+2^-40, 0.75, 1} × four representations, the threaded AdjacencyMap variants for every worker count 1..=8 (..17 at order ≤ 18); each call made twice. Oracle: tournament / recursive-tree / simple-digraph-on-0..n definitions, p=0 ⇒ no arcs, p=1 ⇒ all arcs, equal arguments ⇒ equal results, p outside [0,1] (5 values incl. NaN, ±∞) and order 0 panic; next_f64 ∈ [0,1) for seeds 0..2^16 (2^22), their complements and a multiplicative scramble, first 4 (8) draws; plus 30 seeds computed (by inverting the seeding) so that the FIRST 64-bit draw has a boundary mantissa — all ones, zero, 1, 2^51 — under five high-bit patterns (realisation measured at run time). Interleavings of the AdjacencyMap generators' workers are explored by the schedule engine (coverage.schedules). Non-trivial: order > workers > 1 (threaded), order ≥ 3 otherwise.",
+        "exhaustive over the enumerated parameter grid: every order 1..=12 (20; AdjacencyMap 8 resp. 18 with threads) × 70 (1024) seeds incl. 0..63, 2^32, u64::MAX-1, u64::MAX × p ∈ {0, 2^-40, 0.25, 0.5, 0.5+2^-40, 0.75, 1} × four representations, the threaded AdjacencyMap variants for every worker count 1..=8 (..17 at order ≤ 18); each call made twice. Oracle: tournament / recursive-tree / simple-digraph-on-0..n definitions, p=0 ⇒ no arcs, p=1 ⇒ all arcs, equal arguments ⇒ equal results, p outside [0,1] (5 values incl. NaN, ±∞) and order 0 panic; next_f64 ∈ [0,1) for seeds 0..2^16 (2^22), their complements and a multiplicative scramble, first 4 (8) draws; plus 30 seeds computed (by inverting the seeding) so that the FIRST 64-bit draw has a boundary mantissa — all ones, zero, 1, 2^51 — under five high-bit patterns (realisation measured at run time). Interleavings of the AdjacencyMap generators' workers are explored by the schedule engine (coverage.schedules). Non-trivial: order > workers > 1 (threaded), order ≥ 3 otherwise.",
         &["'all u64 seeds' is decided only on the enumerated seeds; next_f64 ∈ [0,1) for every seed follows from the 52-bit mantissa construction, an arithmetic argument outside this technique", "outputs for 0 < p < 1 are not compared across representations or worker counts (allowed to differ)"],
-        json!({"max_order": if thorough {20} else {8}, "seeds": if thorough {1024} else {70}}),
+        json!({"max_order": if thorough {20} else {12}, "seeds": if thorough {1024} else {70}}),
     );
     let tier2 = tier.to_string();
     Check { spaces, report, post: Some(Box::new(move |ctx| crate::props::conf::run_sched("C15", &tier2, ctx))) }
